@@ -172,6 +172,7 @@ func TestC02_Serializable(t *testing.T) {
 			schedule = genSchedule(t, nt)
 		}
 		cold := rapid.IntRange(0, 3).Draw(t, "coldNodeCaches") == 0
+		coldFinal := rapid.Bool().Draw(t, "coldFinalReader")
 		uuidSeed := rapid.Uint64().Draw(t, "uuidSeed")
 		e, err := txh.NewEnv(rapid.SampledFrom([]int{1, 3, 16}).Draw(t, "hashMod"))
 		if err != nil {
@@ -198,6 +199,10 @@ func TestC02_Serializable(t *testing.T) {
 		}
 		if s.Gated > 0 {
 			rec.Exclude("a commit was held back until no other transaction was in the middle of its operations (known finding: inconsistent snapshot while others commit)")
+		}
+		if coldFinal {
+			// the final reader is another process / a later time: nothing of the node caches is left
+			e.EvictNodeCaches()
 		}
 		final, err := e.Dump(stores, sop.ForReading)
 		if err != nil {
